@@ -35,6 +35,9 @@ var c20Payloads = []struct{ Name, V string }{
 	{"comment-breakout", `--><script>alert(1)</script><!--`},
 	{"newline-and-tab", "line1\r\n<b>bold</b>\tend"},
 	{"message-with-url", "session expired, sign in again at https://login.evil.test/sso?next=1 or http://evil.test"},
+	// nothing but the address of another site (what a page that "links back to the application" would link to)
+	{"address-of-another-site", "https://evil.test/landing?from=sso"},
+	{"address-inside-the-domain", "https://app.sso.test/landing"},
 	{"brace-prefixed-text", "{access_denied} {\"a\":1} (truncated"},
 	// text that already looks escaped: one unescape too many turns it into markup or into an illegal JSON escape
 	{"literal-unicode-escapes", `denied \u003cadmin\u003e a \u0026 b \x3cscript\x3e %3Cb%3E &#60;i&#62;`},
@@ -199,6 +202,14 @@ func c20Run(c *fw.Ctx) {
 		}},
 		{Name: "auth/client-id-error", Side: "auth", JSON: true, Build: func(w *c20World, v, accept string) *http.Request {
 			return harness.NewRequest("GET", "/"+ae.Slug+"/sign_in?client_id="+url.QueryEscape(v), harness.AuthHost, hdrAccept(nil, accept), nil)
+		}},
+		// errors raised before any check of the return address: an unknown client id at the sign-in page, and a
+		// token endpoint called without the client secret, both carrying a redirect_uri
+		{Name: "auth/client-id-error/redirect-uri", Side: "auth", JSON: true, Build: func(w *c20World, v, accept string) *http.Request {
+			return harness.NewRequest("GET", "/"+ae.Slug+"/sign_in?client_id=nobody&redirect_uri="+url.QueryEscape(v), harness.AuthHost, hdrAccept(nil, accept), nil)
+		}},
+		{Name: "auth/profile-error/redirect-uri", Side: "auth", JSON: true, Build: func(w *c20World, v, accept string) *http.Request {
+			return harness.NewRequest("GET", "/"+ae.Slug+"/profile?client_id="+harness.ClientID+"&email=bob%40corp.test&redirect_uri="+url.QueryEscape(v), harness.AuthHost, hdrAccept(nil, accept), nil)
 		}},
 		{Name: "auth/redeem-error/code", Side: "auth", JSON: true, Build: func(w *c20World, v, accept string) *http.Request {
 			b := url.Values{"client_id": {harness.ClientID}, "client_secret": {harness.ClientSecret}, "code": {v}}.Encode()
@@ -404,7 +415,7 @@ func init() {
 	fw.Register(&fw.Check{
 		ID:    "C20",
 		Level: "exploration",
-		Rule: "full product of 27 payloads (also percent signs at the end, before a quote, as formatting verbs) (also messages that begin with a complete JSON object and go on) (also odd runs of dashes before '>' and '--!>', which close an HTML comment) (text that already looks escaped, long values with markup, thorough: plus each of the 256 byte values inside a benign value and all 400 ordered pairs of 20 metacharacters in front of an event-handler-shaped tail) (URL-bearing text, brace-prefixed text, script element, attribute break-out with double and single quotes, </title> break-out, javascript: URL, entity-encoded markup, UTF-7, overlong UTF-8, NUL, template actions, comment break-out, CR/LF/TAB) x 26 request-controlled positions (also the page that accompanies the proxy's http-to-https redirect: raw query text, query parameter) on the real services (the 14 below plus, for each service's error page, the raw query text and the X-Forwarded-For, User-Agent, Referer and X-Forwarded-Host request headers) " +
+		Rule: "full product of 29 payloads (also the bare address of another site and of an in-domain application) (also percent signs at the end, before a quote, as formatting verbs) (also messages that begin with a complete JSON object and go on) (also odd runs of dashes before '>' and '--!>', which close an HTML comment) (text that already looks escaped, long values with markup, thorough: plus each of the 256 byte values inside a benign value and all 400 ordered pairs of 20 metacharacters in front of an event-handler-shaped tail) (URL-bearing text, brace-prefixed text, script element, attribute break-out with double and single quotes, </title> break-out, javascript: URL, entity-encoded markup, UTF-7, overlong UTF-8, NUL, template actions, comment break-out, CR/LF/TAB) x 28 request-controlled positions (also a redirect_uri accompanying an unknown client id and a token-endpoint call without the secret) (also the page that accompanies the proxy's http-to-https redirect: raw query text, query parameter) on the real services (the 14 below plus, for each service's error page, the raw query text and the X-Forwarded-For, User-Agent, Referer and X-Forwarded-Host request headers) " +
 			"(proxy callback `error`; authenticator callback `error`, sign-in page redirect_uri query / raw path / host label / state and parameter names, sign-out page redirect_uri and session email, sign-in / sign-out page with a javascript:-scheme redirect_uri whose host is in domain, sign_in / start / client_id / redeem error responses) x Accept {none, */*, text/plain, images first, application/json (or XHR) where the position has a JSON rendering, and there also lists naming JSON and HTML in either order, the axios default and a browser's list}; a response without a declared type is taken for what a browser would sniff; " +
 			"oracle: the HTML token structure (element names and attribute names, via golang.org/x/net/html's tokenizer) equals that of the same page rendered with a benign value, no URL attribute carries a script URL, and JSON bodies parse and carry the message unaltered wherever they carry the benign one; " +
 			"distinct_nontrivial = distinct (position, payload, json, status, reflected?)",
